@@ -32,8 +32,8 @@ MANIFEST = {
             "halves for the WHOLE shipped files TEMPLATEStateMachine.py and TEMPLATEStateMachine.h (C07_fresh_of_template_x: templates with transition blocks, "
             "per-event signature blocks, initial-state lines and the transition-table line); all their USER tags are fixed text, so the cleaned names are "
             "pairwise distinct for EVERY element record (C07_keys_unique_TEMPLATEStateMachine_py / _h); hypothesis names_ok_py / names_ok_h (= names_ok_x, SYNTACTIC) = every name a "
-            "non-empty alphanumeric word and the initial state, the per-state transition lists, the table cells and the oracle's signature strings free "
-            "of '{', backslash and CR -- C07_dyn_plain_of_names (Proofs/Dyn07.v) derives from it that the output chunks of those four kinds of items are "
+            "non-empty alphanumeric word and the initial state, the per-state transition lists, the table cells and those signature strings of the oracle that the file asks for (both files: without defaults; a C++ default ={} does not matter) free "
+            "of '{', backslash and CR (C07_oracle_condition_needed: a signature spelling a USER tag of the file breaks well-formedness) -- C07_dyn_plain_of_names (Proofs/Dyn07.v) derives from it that the output chunks of those four kinds of items are "
             "plain chunks (through the reference expansion, EngineSM.paren_clean and the sml printer EngineSM.sml_print) --, plus user_lines_plain and the "
             "C16 admission wf_elements16 (both computed per case); evaluated on every py / cpp case (d07.names_ok_shipped_x, oracle from the real Language object) with "
             "wf_fresh_file on the real lines. Model tied to the code by "
